@@ -29,7 +29,7 @@ ASSUMPTIONS = ['float32 builds are compared at rtol 5e-4 on well-conditioned pro
 CASE_TIMEOUT = 420
 WALL_BUDGET = {'quick': 1500, 'thorough': 14000}
 FOCUS = ['interp_torch', 'interp_fortran', 'inplace_false']
-FUNCS = ('sin', 'cos', 'tanh', 'sigmoid', 'exp', 'absv')
+FUNCS = ('sin', 'cos', 'tanh', 'sigmoid', 'exp', 'absv', 'sign')
 
 
 def plan(tier, seed):
@@ -237,7 +237,8 @@ def run_case(case, ctx):
                 raise observe.Mismatch(f"run(backend={b}, solver={solver}, T={steps}*dt, sampling step {m_samp}*dt) returned {df.shape[0]} rows, "
                                        f"expected {steps // m_samp}")
             msgs = []
-            for st2 in (['same'] if solver == 'euler' or not input_fn else ['same', 'next']):
+            # (both Heun stages of integration step k use input sample k, on every backend)
+            for st2 in ['same']:
                 exp = observe.ref_trajectory(ref, keys, steps, dt, heun=(solver == 'heun'), input_fn=input_fn, stage2=st2)[::m_samp]
                 msgs.append(observe.compare_traj(df.values, exp, rtol=1e-7))
             if 'discard' in msgs:
